@@ -138,6 +138,21 @@ def grouping(ctx) -> None:
                 src = it.args[0]
                 is_keys = (isinstance(src, ast.Call) and call_fname(src) == "keys") or isinstance(src, ast.Name)
                 ok_order = is_keys and isinstance(lc.elt.slice, ast.Name) and lc.elt.slice.id == lc.generators[0].target.id
+    any_sort = False
+    for n in fv.cfg.nodes:
+        if n.kind == "for" and isinstance(n.ast.iter, ast.Call) and call_fname(n.ast.iter) == "sorted" and not n.ast.iter.keywords and n.ast.iter.args and isinstance(n.ast.target, ast.Name):
+            any_sort = True
+            src = n.ast.iter.args[0]
+            is_keys = (isinstance(src, ast.Call) and call_fname(src) == "keys") or isinstance(src, ast.Name)
+            lbody = fv.cfg.loop_body[n.id]
+            apps_ = [cs for cs in fv.calls() if cs.node in lbody and isinstance(cs.call.func, ast.Attribute) and cs.call.func.attr == "append" and len(cs.call.args) == 1]
+            jumps = [m for m in (fv.cfg.nodes[i] for i in lbody) if m.kind == "stmt" and isinstance(m.ast, (ast.Break, ast.Continue, ast.Return))]
+            if is_keys and len(apps_) == 1 and not jumps and not fv.controlling(apps_[0].node, within=lbody):
+                arg = fv.def_expr(apps_[0].call.args[0], apps_[0].node)[0]
+                if isinstance(arg, ast.Subscript) and is_name(arg.slice, n.ast.target.id):
+                    ok_order = True
+    if not ok_order and not any_sort and any(isinstance(x, ast.Call) and call_fname(x) in ("sorted", "sort", "argsort", "lexsort") for n in fv.cfg.nodes if n.ast is not None for x in own_walk(n.ast)):
+        ok_order = None if not any(isinstance(n.ast, ast.Assign) and isinstance(n.ast.value, ast.ListComp) for n in fv.cfg.nodes if n.kind == "stmt") else ok_order
     ctx.rep.check(ok_order, rule.replace("group-integrity", "order"), f"{f.qualname}/group-order", "groups are emitted for sorted(keys), every key once",
                   "the column groups are not emitted in sorted key order (ascending column), one group per key", where=f.where())
 
@@ -201,14 +216,17 @@ def sorting(ctx) -> None:
         ctx.rep.refuted(rule, f"{f.qualname}/triple", "the sorted group is not a (sources, destinations, volumes) triple", where=w)
         return
     perms = []
+    elts_at = []
     for i, e in enumerate(val_raw.elts):
+        e, eat = fv.def_expr(e, vat) if isinstance(e, ast.Name) else (e, vat)
+        elts_at.append((e, eat))
         raw_base = e
         while isinstance(raw_base, ast.Call) and raw_base.args and call_fname(raw_base) in ("list", "tuple", "array", "asarray"):
             raw_base = raw_base.args[0]
         perm = None
         ok = False
         if isinstance(raw_base, ast.Subscript):
-            perm = fv.res.resolve(raw_base.slice, vat)
+            perm = fv.res.resolve(raw_base.slice, eat)
             raw_inner = raw_base.value
             while isinstance(raw_inner, ast.Call) and raw_inner.args and call_fname(raw_inner) in ("list", "tuple", "array", "asarray"):
                 raw_inner = raw_inner.args[0]
@@ -219,7 +237,7 @@ def sorting(ctx) -> None:
     ctx.rep.check(len(set(perms)) == 1, rule, f"{f.qualname}/same-permutation", "one index vector permutes all three lists",
                   "the three lists of a group are permuted by different index vectors: sources, destinations and volumes are re-paired", where=w)
     # the permutation is argsort of the partitioning side per mode
-    first = val_raw.elts[0]
+    first, vat = elts_at[0]
     fb = first
     while isinstance(fb, ast.Call) and fb.args and call_fname(fb) in ("list", "tuple", "array", "asarray"):
         fb = fb.args[0]
